@@ -90,6 +90,9 @@ func runC16(cfg *vh.Config) error {
 		if i >= 5 && i < 10 {
 			forcedClash = i - 5 // one package of each known-finding class in every run
 		}
+		if i == 10 {
+			forcedClash = 60 // non-ASCII identifiers
+		}
 		p := genPackage(rp, i >= nPkg)
 		pks = append(pks, pk{p: p})
 		jobs = append(jobs, &Job{ID: len(jobs), Kind: "j5s", Pkg: p.Pkg, Files: map[string]string{strings.ReplaceAll(p.Pkg, ".", "/") + "/a.j5s": p.text()}})
@@ -152,12 +155,12 @@ func runC16(cfg *vh.Config) error {
 		if pks[i].mut != nil {
 			input["mutation"] = pks[i].why
 		}
-		if st := r.status("compile"); st != "err" && pks[i].mut == nil && (p.Clash == "case" || p.Clash == "badlist" || p.Clash == "enumdefault") {
+		if st := r.status("compile"); st != "err" && pks[i].mut == nil && (p.Clash == "case" || p.Clash == "badlist" || p.Clash == "enumdefault" || p.Clash == "unicode") {
 			// classes the compiler has to reject itself (protoc's enum value rule, /repo 4fb405b; list method shape, /repo cec4e3a;
-			// an enum default filter naming no option, /repo fb0e252)
-			res.Fail(vh.Failure{Case: caseNo, Stream: stream, Sig: "C16 package of class " + p.Clash + " -> accepted by the compiler (enum options differing only in case / list method without exactly one array of objects / enum default filter naming no option must be a compile error)",
+			// an enum default filter naming no option, /repo fb0e252; names that are not protobuf identifiers, /repo c71d8d9 by cmpb)
+			res.Fail(vh.Failure{Case: caseNo, Stream: stream, Sig: "C16 package of class " + p.Clash + " -> accepted by the compiler (enum options differing only in case / list method without exactly one array of objects / enum default filter naming no option / non-ASCII identifier must be a compile error)",
 				Clause: "the compiled output can be turned into image, source API, client API, J5 JSON and OpenAPI without error or crash", Input: input, Got: r.firstBad()})
-		} else if st == "err" && (p.Clash == "case" || p.Clash == "badlist" || p.Clash == "enumdefault") {
+		} else if st == "err" && (p.Clash == "case" || p.Clash == "badlist" || p.Clash == "enumdefault" || p.Clash == "unicode") {
 			res.Count(stream + ":class " + p.Clash + " rejected by the compiler (as it must be)")
 		}
 		if st := r.status("compile"); st == "err" {
@@ -180,6 +183,8 @@ func runC16(cfg *vh.Config) error {
 				switch {
 				case p.Clash == "case" && strings.Contains(bad.Msg, "camel-case name"):
 					sig = "C16 valid package with enum options that differ only in case (Active, ACTIVE) -> stage image err: camel-case name conflict of enum values"
+				case p.Clash == "unicode" && (strings.Contains(bad.Msg, "invalid character") || strings.Contains(bad.Msg, "invalid") && strings.Contains(bad.Msg, "name")):
+					sig = "C16 valid package with a non-ASCII letter in a schema / property name (object \u00c9lan, field na\u00efve) -> stage " + bad.Name + " err: the compiled names are not protobuf identifiers"
 				case p.Clash == "enumdefault" && strings.Contains(bad.Msg, "unknown enum value"):
 					sig = "C16 valid package with an enum field whose listRules.filtering.defaultFilters names no option -> stage " + bad.Name + " err: unknown enum value (buildListRequest)"
 				case p.Clash == "split" && (strings.Contains(bad.Msg, "is used by an enum and by a message or oneof") ||
@@ -198,6 +203,10 @@ func runC16(cfg *vh.Config) error {
 
 		// ---- correspondence case
 		if r.Img == nil || r.status("source") == "none" {
+			continue
+		}
+		if p.Clash == "unicode" {
+			res.Count(stream + ":non-ASCII identifier package (direct oracle only)")
 			continue
 		}
 		if p.Clash == "split" {
